@@ -100,6 +100,23 @@ theorem streamed_both_modes (ls : List Line) (per : Nat) (v : List Rec)
     unfold runSeq; rw [seqView_eq_readAll, h]
   exact ⟨hs, by rw [runPar_eq_runSeq, hs]⟩
 
+/-- "with any shard size", between two shard sizes: the shard size is not observable in what a streamed read returns —
+    neither in the records nor in whether the read fails -/
+theorem streamed_shard_size_irrelevant (ls : List Line) (per per' : Nat) :
+    (splitView blank de ls per).map List.flatten = (splitView blank de ls per').map List.flatten := by
+  rw [streamed_eq_whole, streamed_eq_whole]
+
+/-- … and the same for the parallel run as a whole (result, error or panic) -/
+theorem runPar_shard_size_irrelevant (ls : List Line) (per per' : Nat) :
+    runPar blank de ls per = runPar blank de ls per' := by
+  rw [runPar_eq_runSeq, runPar_eq_runSeq]
+
+/-- a streamed read fails for some shard size iff the whole read fails (no shard size hides or invents a bad line) -/
+theorem streamed_fails_iff_whole_fails (ls : List Line) (per : Nat) :
+    splitView blank de ls per = none ↔ readAll blank de ls = none := by
+  rw [← streamed_eq_whole blank de ls per]
+  cases splitView blank de ls per <;> simp
+
 end readers
 
 /-- Parquet: the row-group shards concatenate to the whole file, and so does the sequential view,
